@@ -12,9 +12,9 @@ CONSTANTS
   Pick <- PickAll
   Variants = {}
   FieldOptions <- NoOptions
-  As = {100, 101, 102, 105}
-  Bs = {8425, 8426, 8431, 9000, 12345, 20000}
-  Ps = {0, 90}
+  As = {100, 101, 102, 103, 104, 105, 106, 107}
+  Bs = {8425, 8426, 8431, 9000, 12345, 20000, 150, 4097, 30001, 40000}
+  Ps = {0, 90, 97}
   Shapes = {"pair", "swapped", "suffix", "nested"}
   CountA = 300
   CountB = 301
